@@ -392,6 +392,12 @@ func TestC18(t *testing.T) {
 			lay = gen.RandomLayout{T: rt, Comments: true, Linebreaks: true}
 		}
 		src := gen.Render(p.Stream, lay).Src
+		if rapid.IntRange(0, 39).Draw(rt, "bigword") == 0 {
+			// a word larger than the printer's buffer, so that a chunk is
+			// written through to the (failing) writer directly
+			src = "'" + strings.Repeat("x", 6000) + "'; " + src
+			st.Class("output_larger_than_write_buffer")
+		}
 		base := rapid.IntRange(0, 255).Draw(rt, "config")
 		for k := 0; k < 8; k++ {
 			run(rt, p, src, (base+k*37)%256, true)
